@@ -708,6 +708,13 @@ func (v *FnV) global(st *State, vr *types.Var) Value {
 			return Value{T: t, S: cn}
 		}
 	}
+	if tv, ok := v.e.constInit[vr]; ok && !v.e.assigned[vr] {
+		// initialised with a constant and never assigned in the loaded (non-test) sources
+		if val, ok := v.c.constVal(tv.Value, t); ok {
+			v.c.trusted["package variable "+vr.Pkg().Name()+"."+vr.Name()+" keeps its constant initial value (it is never assigned outside tests)"] = true
+			return val
+		}
+	}
 	if v.e.nonNilG[vr] && !v.e.assigned[vr] {
 		// initialised once with &T{...} and never reassigned: a fixed non-nil object
 		cn := "gobj!" + mangle(vr.Pkg().Path()+"."+vr.Name())
